@@ -697,10 +697,17 @@ no operand is a constant literal.  Combinational AND sequential kinds (`DFF`, la
   model of both renderings, the 2-valued `LogicSim` result on every line of EITHER circuit is `σ` of the line's signal, and the two
   lists of captured values (output ports, data pins of state elements, in `s_nodes` order) are EQUAL — the truth tables the oracle
   `format-equivalence` compares.
-* **Hypotheses that remain**: `commonNlB`; for the simulation statement `benchOKB (benchOf nl)` (follows from `commonNlB` when no kind
-  is `__fork__`: `bench_rendering_builds`) and `verilogOKB cfg primTL nl.portNames (verilogOf nl)` (NOT derived from `commonNlB`: it
-  additionally needs every operand driven and the reader end points of the flat line list pairwise different — evaluated, not proved),
-  and the scheduling hypotheses of the two end-to-end theorems.
+  `bench_verilog_sim_equiv8` — the same equality of captured lists for the 8-valued simulation (`semL8`, `prim8`);
+  `renderings_build` — for a CLOSED description (`closedNlB`: `commonNlB`, no kind is `__fork__`, every operand is a gate name or an
+  input port, no gate name / input port looks like a constant bit `1'b…`) both renderings BUILD: `benchOKB (benchOf nl)`, and without
+  branch forks (`cfg.bf = false`, the default of `verilog.parse`) `verilogOKB cfg primTL nl.portNames (verilogOf nl)`
+  (Proofs/FormatEquiv3.lean: closed form of the reader end points of `vFlat`, pairwise different); `bench_verilog_sim_equiv_closed` —
+  the simulation statement with hypotheses on the description and the two schedules only;
+  `bench_verilog_equiv_layouts` — statement order and grouping do not matter: any bench statement list with the same `benchGates` /
+  `benchPorts` and any module body with the same `sigDecls` / `vInsts` / assign pairs have the same models and observations.
+* **Hypotheses that remain**: `commonNlB` resp. `closedNlB`; with branch forks (`cfg.bf = true`) `verilogOKB` of the rendering is a
+  hypothesis of `bench_verilog_sim_equiv` (evaluated, not derived: the branch-fork names `stem~inst/pin` must be new); the scheduling
+  hypotheses of the two end-to-end theorems (`orderOKB`, `forksOKB`, `linesDrivenB` for each parsed circuit and its order).
 * **Correspondence / oracle**: the renderings `benchOf` / `verilogOf` are CANONICAL (one statement per port, ports first; pin names
   `o`, `i0`…`i3`); the harness renders the same netlist with shuffled statements, grouped interface statements, renamed signals, kind
   synonyms, real library pin names, assigns, constants and buses — that those texts parse to circuits with the same tables stays with
@@ -873,6 +880,66 @@ theorem bench_verilog_sim_equiv_closed (cfg : Cfg) (hbf : cfg.bf = false) (nl : 
 
 /-- the example description is closed -/
 example : closedNlB exNl = true := by decide +kernel
+
+/-- **any statement layout with the same tables**: a bench description `bs` with the gate statements and interface names of
+`benchOf nl` in the same order (interface statements grouped / interleaved with the gates anywhere — what `benchGates`, `benchPorts`
+see) and a module body `vs` with the declarations table, the instances in order and no assign pairs of `verilogOf nl` (declarations
+split over several statements, statements interleaved, `other` items) have the same models and the same observations -/
+theorem bench_verilog_equiv_layouts {α : Type} (nl : Nl) (hc : commonNlB nl = true) (bs : List BStmt) (vs : List Stmt)
+    (hbg : benchGates bs = benchGates (benchOf nl)) (hbp : benchPorts bs = benchPorts (benchOf nl))
+    (hvd : sigDecls vs = sigDecls (verilogOf nl)) (hvi : vInsts vs = vInsts (verilogOf nl))
+    (hva : ∀ ds, assignPairs ds vs = assignPairs ds (verilogOf nl))
+    (z : α) (neg : α → α) (prim : String → α → α → α → α → α) (a : Nat → α) (σ : String → α) :
+    (BenchModel bs z prim a σ ↔ VModel primTL nl.portNames vs z neg prim a σ) ∧
+    benchCaptures bs σ = vCaptures primTL nl.portNames vs z prim σ := by
+  obtain ⟨h1, _, h3⟩ := benchModel_congr_stmts (benchOf nl) bs hbg hbp z prim a σ
+  obtain ⟨h4, _, h6⟩ := vModel_congr_stmts primTL nl.portNames (verilogOf nl) vs hvd hvi hva z neg prim a σ
+  exact ⟨h1.trans ((bench_verilog_equiv nl hc z neg prim a σ).trans h4.symm),
+    h3.trans ((bench_verilog_captures nl hc z prim σ).trans h6.symm)⟩
+
+/-- the hypotheses hold for a shuffled bench text with grouped interface statements (`n = NAND(a, b)`, `INPUT(a)`, `q = DFF(n)`,
+`OUTPUT(y)`, `INPUT(b)` … in any interleaving that keeps the two orders) and a module body with split declarations -/
+example : benchGates [.gate "n" "NAND" ["a", "b"], .intf ["a", "y"], .gate "q" "DFF" ["n"], .gate "y" "XOR" ["q", "a", "b"], .intf ["b"]] =
+      benchGates (benchOf exNl) ∧
+    benchPorts [.gate "n" "NAND" ["a", "b"], .intf ["a", "y"], .gate "q" "DFF" ["n"], .gate "y" "XOR" ["q", "a", "b"], .intf ["b"]] =
+      benchPorts (benchOf exNl) ∧
+    sigDecls [.decls [⟨.input, "a", none⟩], .inst "NAND" "g1" [("o", .one "n"), ("i0", .one "a"), ("i1", .one "b")], .other,
+        .decls [⟨.output, "y", none⟩, ⟨.input, "b", none⟩], .inst "DFF" "f" [("o", .one "q"), ("i0", .one "n")],
+        .inst "XOR" "g2" [("o", .one "y"), ("i0", .one "q"), ("i1", .one "a"), ("i2", .one "b")]] = sigDecls (verilogOf exNl) := by
+  decide +kernel
+
+/-- **`bench_verilog_sim_equiv8`**: the same for the 8-valued simulation (`semL8` = the real dispatch of `c_prop`, documented algebra
+`prim8`): the two captured lists are equal for stimuli that agree on the constant slot and the interface positions -/
+theorem bench_verilog_sim_equiv8 (cfg : Cfg) (nl : Nl) (hc : commonNlB nl = true)
+    (hbok : benchOKB (benchOf nl) = true) (hvok : verilogOKB cfg primTL nl.portNames (verilogOf nl) = true)
+    (orderB orderV : List Nat)
+    (hoB : orderOKB (benchNet (benchOf nl)) orderB = true) (hfB : forksOKB (benchNet (benchOf nl)) orderB = true)
+    (hlB : linesDrivenB Gen.kindPrefixes (benchNet (benchOf nl)) orderB = true)
+    (hoV : orderOKB (verilogNet cfg primTL nl.portNames (verilogOf nl)) orderV = true)
+    (hfV : forksOKB (verilogNet cfg primTL nl.portNames (verilogOf nl)) orderV = true)
+    (hlV : linesDrivenB Gen.kindPrefixes (verilogNet cfg primTL nl.portNames (verilogOf nl)) orderV = true)
+    (envB envV : Nat → V3)
+    (hz : envB (benchNet (benchOf nl)).idx.zero = envV (verilogNet cfg primTL nl.portNames (verilogOf nl)).idx.zero)
+    (hst : ∀ p, p < nl.nPos →
+      envB ((benchNet (benchOf nl)).idx.ppi + p) = envV ((verilogNet cfg primTL nl.portNames (verilogOf nl)).idx.ppi + p)) :
+    ((benchNet (benchOf nl)).sNodes.map fun n => ((benchNet (benchOf nl)).node n).inPin 0 |>.map
+        (exec semL8 ((genOps Gen.kindPrefixes (benchNet (benchOf nl)) orderB false).map OpRow.toOp) envB)) =
+      ((verilogNet cfg primTL nl.portNames (verilogOf nl)).sNodes.map fun n =>
+        ((verilogNet cfg primTL nl.portNames (verilogOf nl)).node n).inPin 0 |>.map
+          (exec semL8 ((genOps Gen.kindPrefixes (verilogNet cfg primTL nl.portNames (verilogOf nl)) orderV false).map OpRow.toOp) envV)) := by
+  have hcn := commonNl_of nl hc
+  obtain ⟨σB, _, huB, _, hcapB⟩ := bench_end_to_end8 (benchOf nl) hbok (benchArity_benchOf nl hcn) orderB hoB hfB hlB envB
+  obtain ⟨σV, hmV, _, _, hcapV⟩ := verilog_end_to_end8 cfg primTL nl.portNames (verilogOf nl) hvok (vArity_verilogOf nl) orderV
+    hoV hfV hlV envV
+  have hmV' : BenchModel (benchOf nl) (envB (benchNet (benchOf nl)).idx.zero) prim8
+      (fun p => envB ((benchNet (benchOf nl)).idx.ppi + p)) σV := by
+    rw [hz]
+    exact benchModel_benchOf_congr nl hcn _ prim8 _ _ (fun p hp => (hst p hp).symm) σV
+      ((bench_verilog_models_equiv nl hcn _ specNot prim8 _ σV).mpr hmV)
+  have he : σV = σB := huB σV hmV'
+  subst he
+  rw [hcapB, hcapV]
+  exact bench_verilog_captures_equiv nl hcn _ prim8 σV
 
 end FormatEquiv
 
